@@ -187,6 +187,11 @@ func seqD(v ssa.Value, depth int, inprog map[ssa.Value]bool) ([]SeqElem, bool) {
 	case *ssa.Slice:
 		// slice of an array literal: new [n]T (slicelit) + stores at constant indexes
 		if al, ok := x.X.(*ssa.Alloc); ok && x.Low == nil && x.High == nil {
+			// an array variable initialised from an array literal (`a := [n]T{...}; f(a[:])`): go/ssa fills a local and
+			// copies it once into the variable - the literal's elements are the variable's, if nothing else writes it
+			if src := arrayLiteralSource(al); src != nil {
+				al = src
+			}
 			if arr, ok := al.Type().(*types.Pointer).Elem().Underlying().(*types.Array); ok {
 				elems := make([]SeqElem, arr.Len())
 				filled := make([]bool, arr.Len())
@@ -267,7 +272,7 @@ func seqD(v ssa.Value, depth int, inprog map[ssa.Value]bool) ([]SeqElem, bool) {
 					if dead[r.Block()] {
 						continue
 					}
-					s, ok := seqD(r.Results[0], depth+1, inprog)
+					s, ok := seqD(retValue(r, 0), depth+1, inprog)
 					if !ok {
 						okAll = false
 						return
@@ -363,6 +368,37 @@ func seqTail(v ssa.Value, depth int, inprog map[ssa.Value]bool) ([]SeqElem, bool
 }
 
 // seqOfMake: make([]T, L) followed by indexed stores and copy() calls that tile [0, L) exactly.
+func arrayLiteralSource(al *ssa.Alloc) *ssa.Alloc {
+	var src *ssa.Alloc
+	for _, r := range referrersOf(al) {
+		switch u := r.(type) {
+		case *ssa.Store:
+			if u.Addr != ssa.Value(al) || src != nil {
+				return nil
+			}
+			ld, ok := u.Val.(*ssa.UnOp)
+			if !ok || ld.Op != token.MUL {
+				return nil
+			}
+			s, ok := ld.X.(*ssa.Alloc)
+			if !ok || s.Comment != "complit" {
+				return nil
+			}
+			src = s
+		case *ssa.Slice, *ssa.DebugRef:
+		case *ssa.IndexAddr:
+			for _, rr := range referrersOf(u) {
+				if _, isSt := rr.(*ssa.Store); isSt {
+					return nil // also written element-wise
+				}
+			}
+		default:
+			return nil
+		}
+	}
+	return src
+}
+
 func seqOfMake(ms *ssa.MakeSlice) ([]SeqElem, bool) {
 	L, ok := affineOf(ms.Len)
 	if !ok {
